@@ -11,7 +11,8 @@
    edges whose ends differ.  `cost n ls t s`: Sankoff minimum over states 0..n-1 with root state s. *)
 From Coq Require Import ZArith List Bool.
 From DV Require Import Model.PyPrims Model.Tree Model.C16Model Model.C16Prims Gen.Fitch
-     Proofs.C16Fitch Proofs.C16Link Proofs.C16Top Proofs.C16Examples Proofs.C16Gen.
+     Proofs.C16Fitch Proofs.C16Link Proofs.C16Top Proofs.C16Examples Proofs.C16Gen
+     Model.C16ObjModel Proofs.C16Obj.
 Import ListNotations.
 Open Scope Z_scope.
 
@@ -290,3 +291,73 @@ Theorem generated_parsimony_score_store_independent :
   fres_result (gen_parsimony_score (mkTreeObj ns_tree root) (mkCharsObj ns_chars al cm) gam w st2 (sbc_arg sbc_given)).
 Proof. exact gen_parsimony_score_store_independent. Qed.
 Print Assumptions generated_parsimony_score_store_independent.
+
+(* =====================================================================================
+   Object level: caller-held taxon_state_sets_map objects shared between calls and tree objects
+   (Model/C16ObjModel.v: heap of Python list objects; a node's `state_sets` attribute and a map's row are
+   references into it; the statements of parsimony.py transcribed as to which object is stored / created).
+   In the unchanged code a leaf's attribute IS the row object of the map last used (aliasing exists, see
+   object_level_example), so "no container shared" is false; what holds is that no statement ever assigns
+   into an existing list: the heap only grows.
+     wfh h          every allocated object id is below the allocation counter
+     closed h l     every object referred to by the node-attribute store / map l exists in h
+     wf_world w     wfh (w_heap w), every tree object's store and every held map closed
+     view / mview   the value-level reading (node id -> contents, taxon -> contents) of a store / map
+   ===================================================================================== *)
+
+(* one step of a history (parsimony_score / fitch_down_pass / fitch_up_pass on tree object ti with a held map,
+   no map, or a throw-away map): FRAME - every list object that existed before has the same contents after
+   (whether it is a row of the map given, of any other held map, or the attribute of a node of any tree), the
+   held maps keep their row objects and contents; REFINEMENT - the stores of all tree objects and the result
+   are those of the value-level model Model/C16Model.v (fitch_down_pass / fitch_up_pass on values), which
+   changes the store of tree object ti only. *)
+Theorem scoring_never_mutates_a_list_object :
+  forall (ts : list tree) (w : world) (ti : nat) (ap : hapi) (wt : option (list Z)) (sbc : bool),
+  wf_world w ->
+  let w' := fst (hstep_run ts w ti ap wt sbc) in
+  wf_world w' /\
+  (forall o v, deref (w_heap w) o = Some v -> deref (w_heap w') o = Some v) /\
+  w_maps w' = w_maps w /\
+  map (mview (w_heap w')) (w_maps w') = map (mview (w_heap w)) (w_maps w) /\
+  (map (view (w_heap w')) (w_stores w'), snd (hstep_run ts w ti ap wt sbc)) =
+  vstep ts (map (view (w_heap w)) (w_stores w)) (map (mview (w_heap w)) (w_maps w)) ti ap wt sbc.
+Proof. exact hstep_sim. Qed.
+Print Assumptions scoring_never_mutates_a_list_object.
+
+(* over ALL histories from the initial world of a case (held maps freshly built, no attributes): after every
+   step every held map has its initial contents and row objects, and no initial list object has changed *)
+Theorem held_maps_never_change : forall (c : hcase) (steps : list hstep),
+  Forall (fun w' => map (mview (w_heap w')) (w_maps w') = hc_maps c /\ w_maps w' = w_maps (world0 c) /\
+                    (forall o v, deref (w_heap (world0 c)) o = Some v -> deref (w_heap w') o = Some v))
+         (hworlds (hc_trees c) (world0 c) steps).
+Proof. exact held_maps_constant. Qed.
+Print Assumptions held_maps_never_change.
+
+(* the worlds of held_maps_never_change are the ones the correspondence run observes (hcase_ok / hrun) *)
+Theorem observed_snapshots_are_these_worlds : forall (ts : list tree) (steps : list hstep) (w : world),
+  map snd (hrun ts w steps) = map (osnap ts) (hworlds ts w steps).
+Proof. exact (fun ts steps w => hrun_worlds ts steps w). Qed.
+Print Assumptions observed_snapshots_are_these_worlds.
+
+(* the value-level model is the abstraction of the object-level one: same outcome, and the node attributes
+   read through the heap are the value-level store - for every tree, map (or none), weights, store *)
+Theorem object_level_refines_value_level :
+  forall (m : option omap) (w : option (list Z)) (sbc : bool) (h : heap) (a : astore) (t : tree),
+  wfh h -> closed h a -> (match m with None => True | Some mm => closed h mm end) ->
+  abso (ofitch_down_pass m w sbc h a t) = fitch_down_pass (omview h m) w sbc (view h a) t /\
+  (view (fst (fst (ofitch_up_pass m h a t))) (snd (fst (ofitch_up_pass m h a t))), snd (ofitch_up_pass m h a t)) =
+  fitch_up_pass (omview h m) (view h a) t.
+Proof. exact (fun m w sbc h a t W C M => conj (proj1 (odown_sim m w sbc h a t W C M)) (proj1 (oup_sim m h a t W C M))). Qed.
+Print Assumptions object_level_refines_value_level.
+
+(* non-vacuity: two tree objects, two held maps, the history A, B, A on tree 0 and A on tree 1 (seeded/C16-7):
+   the initial world is well-formed, the scores are A's, B's, A's, A's, at the end leaf 2 of both trees refers to
+   the very row object of map A (object 0) - and both maps still have their contents *)
+Theorem object_level_example :
+  wf_world (world0 ex_ocase) /\
+  map fst (hcase_model ex_ocase) = [(Ok 3, Some [2; 1]); (Ok 1, Some [0; 1]); (Ok 3, Some [2; 1]); (Ok 3, Some [2; 1])] /\
+  (let w := last (hworlds (hc_trees ex_ocase) (world0 ex_ocase) (hc_steps ex_ocase)) (world0 ex_ocase) in
+   map (lookup 2) (w_stores w) = [Some 0; Some 0] /\ nth_error (w_maps w) 0 = Some [(0, 0); (1, 1); (2, 2)] /\
+   vmaps w = [ex_mapA; ex_mapB]).
+Proof. exact ex_ocase_facts. Qed.
+Print Assumptions object_level_example.
